@@ -42,7 +42,7 @@ func genC16() *rapid.Generator[*Spec] {
 			var b strings.Builder
 			// (math/bits and unicode/utf8 have no dependencies of their own: Wire
 			// type-checks every dependency from source on each run)
-			fmt.Fprintf(&b, "//go:build wireinject\n\npackage %s\n\nimport (\n\tzzb \"math/bits\"\n\tzzu \"unicode/utf8\"\n)\n\nfunc ZzCopied(zzv []uint) string {\n\tzzout := string(rune('a' + zzb.Len(3) + zzu.RuneLen('x')))\n", s.Pkgs[0].Name)
+			b.WriteString("func ZzCopied(zzv []uint) string {\n\tzzout := string(rune('a' + zzb.Len(3) + zzu.RuneLen('x')))\n")
 			n := rapid.IntRange(2, 6).Draw(t, "locals")
 			for i := 0; i < n; i++ {
 				name := rapid.SampledFrom([]string{"bits", "utf8"}).Draw(t, "local")
@@ -58,7 +58,8 @@ func genC16() *rapid.Generator[*Spec] {
 				}
 			}
 			b.WriteString("\treturn zzout\n}\n")
-			s.Extra = b.String()
+			s.InjExtra = b.String()
+			s.InjExtraImports = map[string]string{"math/bits": "zzb", "unicode/utf8": "zzu"}
 			s.Note = strings.TrimSpace(s.Note + " copied-decl")
 		}
 		s.Note = strings.TrimSpace(s.Note + " C16")
